@@ -30,4 +30,15 @@ CHECKS["C04"] = {
     "note": "trusted base: TLC, CTypes.tla, the event logger (harness/ctypes_driver.py); widths outside the set are not covered",
     "technique": "call-trace validation against a TLA+ definition of the C11 conversion table",
 }
+CHECKS["C18"] = {
+    "category": "model_checking",
+    "engine": "tlc-mc",
+    "text": "ParsePool.tla (Dispatch/Finish/Yield, all part counts, failure points and 1..3 workers for 4 tasks, every interleaving) is "
+            "model-checked exhaustively for one-entry-per-name, equality with sequential parsing, failure isolation and termination under weak "
+            "fairness; the real Parser.parse is then run under TLC-simulated schedules (pool size, failing parts, completion order imposed by "
+            "per-task delays; pool sizes up to 16) and the per-process event sequences plus the returned dictionary are validated by TLC as a "
+            "behaviour of ParsePool (interleaving inferred, no wall clock)",
+    "note": "OS scheduling is steered and recorded, not enumerated; wrappers around rzilcompiler.Parser.parse_single/Pool/tqdm are installed by the harness",
+    "technique": "TLC model checking of a TLA+ pool model + trace validation of real pool runs",
+}
 NOT_YET = {}
